@@ -516,7 +516,16 @@ func runAPFlow(tp *Tape, res *core.Result, rng *core.Rng) {
 			skipped++
 			continue
 		}
-		tok := rk.NegTokenInit([][]int{rk.OIDKRB5}, rk.KRB5Token(rk.TokAPReq, tr.Bytes))
+		// the AP-REQ travels in one of the framings a peer may choose: NegTokenInit, NegTokenResp,
+		// or the bare Kerberos mechanism token
+		mechTok := rk.KRB5Token(rk.TokAPReq, tr.Bytes)
+		tok := rk.NegTokenInit([][]int{rk.OIDKRB5}, mechTok)
+		switch (d / 2) % 3 {
+		case 1:
+			tok = rk.NegTokenResp(1, rk.OIDKRB5, mechTok)
+		case 2:
+			tok = mechTok
+		}
 		if tp.Mode != "ap-byz" && tp.Mode != "ap-plain" {
 			b, ds, ok := damage(derPoint, tok, strings.TrimPrefix(tp.Mode, "ap-"), d)
 			if !ok {
